@@ -74,6 +74,9 @@ def parts(tier):
                                                    "templates": ["nested_object", "list_of_objects", "optional_pseudo"]},
                shards=16, timeout=170, path_timeout=30),
             CH("roots", "vflib.props.c03:scen_roots", {}, shards=10, timeout=170, path_timeout=30),
+            CH("reserved_name_variants", "vflib.props.c03:scen_load", {"pool": "KEY_POOL_RESERVED", "styled": "k1",
+                                                                      "templates": ["flat_scalars", "nested_object", "list_of_objects"]},
+               shards=16, timeout=170, path_timeout=30),
         ]
     from vflib import progsym
     return [
@@ -83,6 +86,9 @@ def parts(tier):
         CH("k1k2k3", "vflib.props.c03:scen_load", {"pool": "KEY_POOL_QUICK", "styled": "all", "templates": ["nested_object", "list_of_objects"],
                                                    "frameworks": ["pydantic", "dataclasses"]}, shards=16, timeout=900, path_timeout=30),
         CH("roots", "vflib.props.c03:scen_roots", {}, shards=10, timeout=600, path_timeout=30),
+        CH("reserved_name_variants", "vflib.props.c03:scen_load", {"pool": "KEY_POOL_RESERVED", "styled": "k1", "options": True,
+                                                                  "templates": ["flat_scalars", "nested_object", "list_of_objects", "recursive"]},
+           shards=16, timeout=700, path_timeout=30),
     ]
 
 
